@@ -25,9 +25,9 @@ def run(chk):
                            shards=8, tag='c12g', timeout=cap, stall_s=150)
         big = bg.submit(vlib.run_sharded, asan, 6, chk.seed, chk.tier, ['--mode', 'flexbig'],
                         shards=6, tag='c12b', timeout=cap, stall_s=150) if T else None
-        chk.absorb(vlib.run_sharded(asan, 8000 if T else 560, chk.seed, chk.tier, ['--mode', 'maps', '--profile', 'std'], tag='c12a', timeout=cap),
+        chk.absorb(vlib.run_sharded(asan, 6400 if T else 560, chk.seed, chk.tier, ['--mode', 'maps', '--profile', 'std'], tag='c12a', timeout=cap),
                    'histories x 8 map types + dumps/reloads (asan)')
-        chk.absorb(vlib.run_sharded(h5, 1600 if T else 144, chk.seed, chk.tier, ['--mode', 'maps', '--profile', 'flex'], tag='c12f', timeout=cap),
+        chk.absorb(vlib.run_sharded(h5, 1200 if T else 144, chk.seed, chk.tier, ['--mode', 'maps', '--profile', 'flex'], tag='c12f', timeout=cap),
                    'FlexMem sparse->dense switch at 4096 (hook H5, asan)')
         chk.absorb(vlib.run_sharded(asan, 16000 if T else 1600, chk.seed, chk.tier, ['--mode', 'nlfw', '--profile', 'std'], tag='c12n', timeout=cap),
                    'NodeLocationsForWays, all type pairs (asan)')
